@@ -289,8 +289,9 @@ where
     let mut positions: Vec<(usize, &str)> = vec![];
     if bi == 0 {
         for p in 0..32 { positions.push((p, "seed")); }
-        for p in 32..40 { positions.push((p, "sizes")); }
     }
+    // the four size words of both base proofs (for the larger one a lowered slot count stays inside the permitted window)
+    for p in 32..40 { positions.push((p, "sizes")); }
     if thorough {
         for i in lo..ns {
             let o = 40 + i * slot_size;
@@ -381,6 +382,14 @@ where
     }
     n_positions += positions.len();
     n_modelled += budget.values().sum::<usize>();
+    if bi == 1 {
+        // the announced slot count lowered to other permitted values, with the frame length left as it is
+        for newsp in [128usize, ns - 1, ns - 13] {
+            let mut b = hb.bytes.clone();
+            b[32..34].copy_from_slice(&(newsp as u16).to_be_bytes());
+            eval(rep, m, &format!("alter-hi-slot-count:{ns}->{newsp}"), &b, &ctx, true, &Expect::Reject, log);
+        }
+    }
     }
 
     // ---------------------------------------------------------------- 2. context substitutions
